@@ -841,7 +841,14 @@ def runOp (sc : Scen) (j : Json) : P Json := do
         { origin := (sc.env.classes.findIdx? (fun (c : ClassEntry) => c.info.name == nm)).getD 999
           exact := (sc.env.classes.findIdx? (fun (c : ClassEntry) => c.key == key)).getD 998, vals := vals }
       if op == "repr" then
-        return Json.mkObj [("ok", .str (Order.reprInst ce.info.name fs (pyRepr E) (mkInst a (keyOf a))))]
+        let shown := Order.reprInst ce.info.name fs (pyRepr E) (mkInst a (keyOf a))
+        -- `partial`: the same instance minus one field is shown first (`getattr` fails: AttributeError, unless the field is
+        -- not a repr-field), then the field is assigned: repr is a function of the field values, so it is `shown` again
+        match optStrJ (jfieldD j "partial" .null) with
+        | some missing =>
+          let isRepr := fs.any fun (f : Order.FieldFlags) => f.name == missing && f.repr
+          return Json.mkObj [("ok", .str shown), ("after_fail", .arr #[.str (if isRepr then "AttributeError" else "shown"), .str shown])]
+        | none => return Json.mkObj [("ok", .str shown)]
       let b ← parseVal (← jfield j "b")
       let ia := mkInst a ((optStrJ (jfieldD j "akey" .null)).getD (match a with | .obj c _ _ => c | _ => ""))
       let ib := mkInst b ((optStrJ (jfieldD j "bkey" .null)).getD (match b with | .obj c _ _ => c | _ => ""))
